@@ -55,10 +55,11 @@ def filler(key, ostar):
     return "a"
 
 
-def relations(spec, o, ref, labels):
+def relations(spec, o, ref, labels, mk=None):
     """Check the explain/keys/validate relations on a cold build; returns (explain ok?, absent listed keys)."""
+    mk = mk or (lambda: build(spec))
     r = ref.run(o)
-    G = build(spec)
+    G = mk()
     mark = len(G.log)
     try:
         E = G.root.explain(o)
@@ -75,13 +76,13 @@ def relations(spec, o, ref, labels):
         raise Violation("explain-ran-body", f"options={o}: explain ran bodies {sorted(ran - allowed)} beyond branch selection {sorted(allowed)}")
     if E is None:
         return None
-    keys = run(build(spec).root.keys, o)
+    keys = run(mk().root.keys, o)
     if keys.ok:
-        K = build(spec).root.keys(o)
+        K = mk().root.keys(o)
         if not K <= E:
             raise Violation("explain-misses-keys", f"options={o}: keys {sorted(K)} but explain {sorted(E)}")
     A = {k for k in E if not U.dotted_has(o, k)}
-    val = run(build(spec).root.validate, o)
+    val = run(mk().root.validate, o)
     if not A:
         k = None if val.ok else has_missing(val.exc)
         if k is not None:
@@ -99,9 +100,14 @@ def relations(spec, o, ref, labels):
 
 def check(case, ctx):
     spec = specgen.normalise(case["spec"], ctx.flags, ctx)
-    ref = Ref(spec)
+    from .c10 import with_toggles
+    _, off = with_toggles(spec, case)
+    ref = Ref(spec, effects_disabled=off)
+    mk = (lambda: with_toggles(spec, case)[0])
     ostar = case["ostar"]
     labels = set()
+    if off:
+        labels.add("disable_effects()")
     nontrivial = False
     chain = [{}]
     cur = {}
@@ -113,13 +119,13 @@ def check(case, ctx):
         chain.append(cur)
     chain.append(ostar)
     for o in chain:
-        relations(spec, o, ref, labels)
+        relations(spec, o, ref, labels, mk)
     # fill loop from a few starting points
     for start in (chain[0], chain[len(chain) // 2]):
         o = start
         rounds = 0
         for _ in range(30):
-            A = relations(spec, o, ref, labels)
+            A = relations(spec, o, ref, labels, mk)
             if A is None:
                 # branch cannot be chosen: supply the dispatch-ish keys the reference read and found absent
                 r = ref.run(o)
@@ -151,7 +157,7 @@ def cases(draw, prof):
     ostar = draw(U.option_dicts(p_present=draw(st.sampled_from([0.7, 0.9, 0.97]))))
     leaves = U.VALUE_KEYS + U.DISPATCH_KEYS + [U.THRESH, "L"]
     order = draw(st.permutations(leaves))
-    return {"spec": spec, "ostar": ostar, "order": list(order)[:draw(st.integers(2, 8))]}
+    return {"spec": spec, "ostar": ostar, "order": list(order)[:draw(st.integers(2, 8))], "effects_off": draw(st.lists(st.integers(0, 5), max_size=2))}
 
 
 PROFILE = specgen.profile(domain_rate=0.0, total_preds=True, depth=2)
